@@ -28,6 +28,10 @@ from sc3.synth import synthdef as sdf
 s = Server.default
 itf = main._osc_interface
 DEFAULT_LATENCY = s.latency
+from sc3.base.netaddr import NetAddr
+OTHER = Server('other', NetAddr('127.0.0.1', 57111))     # a second, non-default server (never booted)
+SERVERS = [s, OTHER]
+PORT_OF = {srv.addr._target: k for k, srv in enumerate(SERVERS)}
 
 
 # ---- independent OSC reader (wire-level view) -------------------------------------------
@@ -98,7 +102,7 @@ def _enc_msg(args):
 
 
 def cap_send_msg(target, *args):
-    LOG.append(['M', _enc_msg(args)])
+    LOG.append(['M', _enc_msg(args), PORT_OF.get(tuple(target), -1)])
 
 
 def cap_send_bundle(target, time, *elements):
@@ -109,7 +113,7 @@ def cap_send_bundle(target, time, *elements):
         else:
             msgs.append(['#nested-bundle', []])
     t = None if time is None else str(Fraction(time))
-    LOG.append(['B', t, msgs])
+    LOG.append(['B', t, msgs, PORT_OF.get(tuple(target), -1)])
 
 
 itf.send_msg = cap_send_msg
@@ -127,17 +131,23 @@ class BoomBase(BaseException):     # not an Exception subclass (like KeyboardInt
 # ---- op execution -----------------------------------------------------------------------
 
 class World:
-    def __init__(self, latency=None):
+    def __init__(self, latency=None, k=0, shared=None):
+        s = self.srv = SERVERS[k]
+        self.k = k
         # a history must not inherit a server address that an earlier history failed to restore
         guard = 0
         while type(s._addr).__name__ == 'BundleNetAddr' and guard < 1000:
             s._addr = s._addr._save_addr; guard += 1
         s._set_client_id(0)       # new node / bus / buffer allocators, default groups
-        Buffer._server_caches.clear()
+        Buffer._server_caches.pop(s, None)
         s.latency = DEFAULT_LATENCY if latency is None else float(Fraction(latency))
         self.passed = []          # mutable argument objects handed to the library by the current op
         self.nodes, self.bufs, self.buses = [], [], []
-        self.alloc, self.free = [], []
+        self.tag = shared is not None
+        if shared is None:
+            self.alloc, self.free = [], []
+        else:                     # several servers in one history: one record of allocator calls, tagged with the server
+            self.alloc, self.free = shared.alloc, shared.free
         self._wrap(s._node_allocator, 'node')
         self._wrap(s._buffer_allocator, 'buf')
         self._wrap(s._control_bus_allocator, 'cbus')
@@ -149,7 +159,7 @@ class World:
 
         def alloc(*a):
             r = oa(*a)
-            w.alloc.append([kind, r, (a[0] if a else 1)])
+            w.alloc.append([kind, r, (a[0] if a else 1)] + ([w.k] if w.tag else []))
             return r
         al.alloc = alloc
         if hasattr(al, 'free'):
@@ -160,7 +170,7 @@ class World:
                 of(addr)
                 after = {(b.address, b.size) for b in al.blocks()}
                 for b in sorted(before - after):
-                    w.free.append([kind, b[0], b[1]])
+                    w.free.append([kind, b[0], b[1]] + ([w.k] if w.tag else []))
             al.free = free
 
 
@@ -206,9 +216,9 @@ def target(w, t):
     if k == 'none':
         return None
     if k == 'server':
-        return s
+        return w.srv
     if k == 'root':
-        return RootNode(s)
+        return RootNode(w.srv)
     if k == 'node':
         return w.nodes[t['i']]
     if k == 'int':
@@ -267,7 +277,7 @@ def exec_op(w, op):
         else:
             N[-1] = getattr(cls, c)(t)
     elif o == 'basic_new':       # client-side only object with a user supplied id
-        N.append(None); N[-1] = Group.basic_new(s, op['id'])
+        N.append(None); N[-1] = Group.basic_new(w.srv, op['id'])
     elif o in ('n_set', 'n_setn', 'n_map', 'n_mapa', 'n_mapn', 'n_mapan', 'seti'):
         getattr(N[op['n']], o[2:] if o != 'seti' else o)(*vals(w, op['args']))
     elif o == 'n_fill':
@@ -289,32 +299,32 @@ def exec_op(w, op):
     elif o == 'g_dump_tree':
         N[op['n']].dump_tree(op['controls'])
     elif o == 's_reorder':
-        s.reorder([N[i] for i in op['nodes']], target(w, op['target']), op['action'])
+        w.srv.reorder([N[i] for i in op['nodes']], target(w, op['target']), op['action'])
     elif o == 's_free_default_group':
-        s.free_default_group(op['all'])
+        w.srv.free_default_group(op['all'])
     elif o == 's_send_default_groups':
-        s._send_default_groups()
+        w.srv._send_default_groups()
     elif o == 's_dump_osc':
-        s.dump_osc(op['code'])
+        w.srv.dump_osc(op['code'])
     elif o == 'sd_send':
-        the_synthdef()._do_send(s, compl(w, op['compl']))
+        the_synthdef()._do_send(w.srv, compl(w, op['compl']))
     elif o == 'sd_load':
-        sdf.SynthDef.load_from_file(s, op['name'], compl(w, op['compl']), '/tmp/defs')
+        sdf.SynthDef.load_from_file(w.srv, op['name'], compl(w, op['compl']), '/tmp/defs')
     elif o == 'sd_load_dir':
-        sdf.SynthDef.load_directory(s, '/tmp/defs', compl(w, op['compl']))
+        sdf.SynthDef.load_directory(w.srv, '/tmp/defs', compl(w, op['compl']))
     # ---- buffers
     elif o == 'b_new':
         B.append(None)
-        B[-1] = Buffer(op['frames'], op['channels'], s, op.get('bufnum'), compl(w, op['compl']), alloc=op.get('alloc', True))
+        B[-1] = Buffer(op['frames'], op['channels'], w.srv, op.get('bufnum'), compl(w, op['compl']), alloc=op.get('alloc', True))
     elif o == 'b_consecutive':
-        lst = Buffer.new_consecutive(op['n'], op['frames'], op['channels'], s, op.get('bufnum'), compl(w, op['compl']))
+        lst = Buffer.new_consecutive(op['n'], op['frames'], op['channels'], w.srv, op.get('bufnum'), compl(w, op['compl']))
         B.extend(lst)
     elif o == 'b_new_read':
-        B.append(None); B[-1] = Buffer.new_read(op['path'], op['start'], op['frames'], s, op.get('bufnum'))
+        B.append(None); B[-1] = Buffer.new_read(op['path'], op['start'], op['frames'], w.srv, op.get('bufnum'))
     elif o == 'b_new_read_channel':
-        B.append(None); B[-1] = Buffer.new_read_channel(op['path'], op['start'], op['frames'], op['chans'], s, op.get('bufnum'))
+        B.append(None); B[-1] = Buffer.new_read_channel(op['path'], op['start'], op['frames'], op['chans'], w.srv, op.get('bufnum'))
     elif o == 'b_new_cue':
-        B.append(None); B[-1] = Buffer.new_cue(op['path'], op['start'], op['size'], op['channels'], s, op.get('bufnum'), compl(w, op['compl']))
+        B.append(None); B[-1] = Buffer.new_cue(op['path'], op['start'], op['size'], op['channels'], w.srv, op.get('bufnum'), compl(w, op['compl']))
     elif o == 'b_alloc':
         B[op['b']].alloc(compl(w, op['compl']))
     elif o == 'b_alloc_read':
@@ -332,7 +342,7 @@ def exec_op(w, op):
     elif o in ('b_close', 'b_free', 'b_zero'):
         getattr(B[op['b']], o[2:])(compl(w, op['compl']))
     elif o == 'b_free_all':
-        Buffer.free_all(s)
+        Buffer.free_all(w.srv)
     elif o == 'b_fill':
         B[op['b']].fill(val(w, op['start']), val(w, op['frames']), vals(w, op['values']))
     elif o in ('b_set', 'b_setn'):
@@ -360,7 +370,7 @@ def exec_op(w, op):
     # ---- buses
     elif o == 'bus_new':
         U.append(None)
-        U[-1] = (AudioBus if op['audio'] else ControlBus)(op['channels'], s, op.get('index'))
+        U[-1] = (AudioBus if op['audio'] else ControlBus)(op['channels'], w.srv, op.get('index'))
     elif o == 'bus_free':
         U[op['u']].free()
     elif o == 'bus_set':
@@ -381,8 +391,19 @@ def exec_op(w, op):
         U[op['u']].get(lambda *a: None)
     elif o == 'bus_getn':
         U[op['u']].getn(op['count'], lambda *a: None)
+    elif o == 'sync':          # yield from server.sync(), driven from a routine; the '/synced' reply is simulated
+        from sc3.base.stream import Routine
+
+        def body():
+            yield from w.srv.sync()
+        r = Routine(body)
+        for _ in range(50):     # each resumption stands for "the server answered"
+            try:
+                next(r)
+            except StopIteration:
+                break
     elif o == 'raw_msg':       # direct use of the address inside/outside bind
-        s.addr.send_msg(op['addr'], *vals(w, op['args']))
+        w.srv.addr.send_msg(op['addr'], *vals(w, op['args']))
     else:
         raise ValueError('unknown op ' + o)
 
@@ -392,9 +413,21 @@ def exc_name(e):
 
 
 def run_history(ops, latency=None):
-    w = World(latency)
+    multi = any('srv' in op for op in ops)
+    if multi:
+        # several servers in one history: op['srv'] names the server the op addresses; latency = one value per server
+        lats = latency if isinstance(latency, list) else [latency] * len(SERVERS)
+        w0 = World(lats[0], 0, shared=None)
+        w0.tag = True
+        worlds = [w0] + [World(lats[k], k, shared=w0) for k in range(1, len(SERVERS))]
+    else:
+        worlds = [World(latency)]
+    w = worlds[0]
     steps = [None] * len(ops)
     n = len(ops)
+
+    def wof(op):
+        return worlds[op.get('srv', 0)]
 
     def mark(i, exc=None):
         steps[i] = {'ev': LOG[:], 'exc': exc, 'alloc': w.alloc[:], 'free': w.free[:]}
@@ -410,18 +443,19 @@ def run_history(ops, latency=None):
                 mark(pos)
                 k = 0
                 close_pos = None
+                bs = wof(op).srv
                 try:
-                    with s.bind():
+                    with bs.bind():
                         pos, k = level(pos + 1)
                         close_pos = pos - 1
                         if k > 0:
                             raise (BoomBase() if ops[close_pos].get('base') else Boom())
                     mark(close_pos)                      # normal exit: flush recorded at the bind_exit op
-                    steps[close_pos]['addr'] = type(s.addr).__name__
+                    steps[close_pos]['addr'] = type(bs.addr).__name__
                 except (Boom, BoomBase):
                     mark(close_pos)                      # nothing must have been sent
                     k -= 1
-                    steps[close_pos]['addr'] = type(s.addr).__name__
+                    steps[close_pos]['addr'] = type(bs.addr).__name__
                     if k > 0:
                         return pos, k
                 except Exception as e:                   # flush failed (unencodable message) or library error
@@ -434,11 +468,12 @@ def run_history(ops, latency=None):
             if o == 'bind_raise':
                 return pos + 1, int(op['k'])
             try:
-                w.passed = []
-                exec_op(w, op)
+                wo = wof(op)
+                wo.passed = []
+                exec_op(wo, op)
                 if op.get('then_mutate'):
                     # the caller re-uses / changes his own argument objects after the call returned
-                    for obj in w.passed:
+                    for obj in wo.passed:
                         if isinstance(obj, list):
                             obj.append(12345); obj.insert(0, 'zzz')
                         elif isinstance(obj, dict):
@@ -454,21 +489,30 @@ def run_history(ops, latency=None):
         if steps[i] is None:
             steps[i] = {'ev': [], 'exc': 'not-run', 'alloc': [], 'free': []}
     # final snapshot of the allocators and of the client objects
-    final = {
-        'buf_blocks': sorted([b.address, b.size] for b in s._buffer_allocator.blocks()),
-        'cbus_blocks': sorted([b.address, b.size] for b in s._control_bus_allocator.blocks()),
-        'abus_blocks': sorted([b.address, b.size] for b in s._audio_bus_allocator.blocks()),
-        'bufnums': [None if b is None else b.bufnum for b in w.bufs],
-        'bus_index': [None if u is None else u.index for u in w.buses],
-        'node_ids': [None if x is None else x.node_id for x in w.nodes],
-    }
-    if s.addr is not s._addr or type(s.addr).__name__ != 'NetAddr':
-        final['addr_not_restored'] = type(s.addr).__name__
-    cache = Buffer._server_caches.get(s, {})
-    final['cached'] = sorted(k for k in cache if isinstance(k, int))
-    final['cached_none'] = sum(1 for k in cache if k is None)
-    final['latency'] = str(Fraction(s.latency)) if s.latency is not None else None
-    return {'steps': steps, 'final': final}
+    finals = []
+    for wk in worlds:
+        sv = wk.srv
+        final = {
+            'buf_blocks': sorted([b.address, b.size] for b in sv._buffer_allocator.blocks()),
+            'cbus_blocks': sorted([b.address, b.size] for b in sv._control_bus_allocator.blocks()),
+            'abus_blocks': sorted([b.address, b.size] for b in sv._audio_bus_allocator.blocks()),
+            'bufnums': [None if b is None else b.bufnum for b in wk.bufs],
+            'bus_index': [None if u is None else u.index for u in wk.buses],
+            'node_ids': [None if x is None else x.node_id for x in wk.nodes],
+            'node_servers': [None if x is None else SERVERS.index(x.server) for x in wk.nodes],
+            'buf_servers': [None if b is None else SERVERS.index(b.server) for b in wk.bufs],
+            'bus_servers': [None if u is None else SERVERS.index(u.server) for u in wk.buses],
+        }
+        if sv.addr is not sv._addr or type(sv.addr).__name__ != 'NetAddr':
+            final['addr_not_restored'] = type(sv.addr).__name__
+        cache = Buffer._server_caches.get(sv, {})
+        final['cached'] = sorted(k for k in cache if isinstance(k, int))
+        final['cached_none'] = sum(1 for k in cache if k is None)
+        final['latency'] = str(Fraction(sv.latency)) if sv.latency is not None else None
+        finals.append(final)
+    if multi:
+        return {'steps': steps, 'finals': finals, 'final': finals[0]}
+    return {'steps': steps, 'final': finals[0]}
 
 
 def main_():
@@ -482,8 +526,9 @@ def main_():
         except Exception as e:
             out.append({'steps': [], 'final': {}, 'crash': exc_name(e) + ': ' + str(e) + '\n' + traceback.format_exc()[-1500:]})
             # make sure a half-open bind does not leak into the next history
-            while type(s.addr).__name__ == 'BundleNetAddr':
-                s._addr = s._addr._save_addr
+            for sv in SERVERS:
+                while type(sv.addr).__name__ == 'BundleNetAddr':
+                    sv._addr = sv._addr._save_addr
     json.dump({'out': out, 'latency': str(Fraction(s.latency)), 'sd_nbytes': len(bytes(the_synthdef().as_bytes())),
                'default_group': s.default_group.node_id}, open(sys.argv[2], 'w'))
 
